@@ -159,11 +159,9 @@ impl<'a> Tokenizer<'a> {
                     return Ok(());
                 }
             }
-            _ => {
-                return Err(Error::ExpectedOpNotExist(op.to_string()));
-            }
+            _ => {}
         }
-        Ok(())
+        Err(Error::ExpectedOpNotExist(op.to_string()))
     }
 
     fn delim_token(&mut self, start: usize) -> Result<Token<'a>> {
